@@ -9,8 +9,8 @@ CHOICES = [(f, ctx) for f in NAMES for k in (0, 1, 2) for ctx in itertools.combi
 
 
 def gen_case(rng, cid, mode):
-    sc = scripts.gen_script(rng, maxlen=rng.randint(6, 45), maxdepth=3, p_call=0.15, reads=False,
-                            fns=rng.choice(["f", "f", "fg"]))
+    sc = scripts.gen_script(rng, maxlen=rng.randint(6, 45), maxdepth=4, p_call=rng.choice([0.15, 0.35]), reads=False,
+                            fns=rng.choice(["f", "f", "fg", "fg"]))
     fns = P.script_fns(sc)
     hs = []
     for (foc, ctx) in rng.sample(CHOICES, 5):
@@ -18,6 +18,10 @@ def gen_case(rng, cid, mode):
         caps = [S.cap(v, v, 0) for v in ctx] + [S.cap(foc, foc, 1)]
         rng.shuffle(caps)
         hs.append(W.norm_handler({"kind": "imm", "sel": S.node(fn, caps)}))
+    # the same question along a call path: context variables of the inner call of 'outer > inner(ctx) > v' come from
+    # that very call (repeated and recursive inner calls under one outer call)
+    for _ in range(2):
+        hs.append(W.norm_handler({"kind": "imm", "sel": S.gen_sel(rng, fns=fns, names=("a", "b", "p", "c", "i"), maxdepth=rng.choice([2, 3]))}))
     return {"id": cid, "script": sc, "arg": rng.randint(0, 50), "handlers": hs}
 
 
